@@ -210,6 +210,19 @@ def p_assigned(x):
     return None
 
 
+def p_line_iterables(t):
+    """as_formatted_lines takes the lines as any iterable"""
+    lines = t.splitlines()
+    want = debcon.as_formatted_lines(list(lines))
+    for how, arg in (('a tuple', tuple(lines)), ('an iterator', iter(list(lines))), ('a generator', (l for l in lines))):
+        if not lines:
+            continue
+        got = debcon.as_formatted_lines(arg)
+        if got != want:
+            return 'as_formatted_lines(%s of the lines of %r) = %r, of the list %r' % (how, t, got, want)
+    return None
+
+
 def p_instance(v):
     """a field object handed to from_value of its own class stands for itself: same name / synopsis, same text, same
     rendering (the copyright classes accept an instance where a value is expected)"""
@@ -275,6 +288,7 @@ def run(ctx):
     fails += [('first_line', x, w) for x, w in ctx.prop('prop:first_line', texts, p_first_line)]
     fails += [('instance', x, w) for x, w in ctx.prop('prop:from_value(instance)', texts[::3], p_instance)]
     fails += [('field_cycles', x, w) for x, w in ctx.prop('prop:field-cycles', texts, p_field_cycles)]
+    fails += [('line_iterables', x, w) for x, w in ctx.prop('prop:lines-as-any-iterable', texts[::5], p_line_iterables)]
     pairs_a = [(texts[i], texts[(i * 7 + 3) % len(texts)]) for i in range(0, len(texts), max(1, len(texts) // ctx.n(4000, 40000)))]
     fails += [('assigned', x, w) for x, w in ctx.prop('prop:rendering-follows-assignment', pairs_a, p_assigned)]
     # texts beyond 1 MiB in which an empty line (or a line end) sits exactly on every multiple of 4096 characters
